@@ -50,6 +50,9 @@ def cases(draw):
         recipe, params = draw(gen.resolution_case())
         recipe = dict(recipe, style={"holder": "same", "valtype": draw(st.sampled_from(["float", "np"]))})
         return {"recipe": recipe, "params": params}
+    sp = draw(gen.start_points(recipe))
+    if sp is not None:
+        params = dict(params, startPoint=sp)      # SolverParameters.startPoint (ignored by the pinned code)
     case = {"recipe": recipe, "params": params}
     if draw(st.integers(0, 3)) == 0:
         # part of the budget is spent through DoGlobalIteration before Solve (never more than itersLimit, possibly
